@@ -54,6 +54,12 @@ pub struct RespCase {
     pub upgrade: Option<String>,
     /// for FromString: use multi-byte text (body_len then counts bytes of the generated text)
     pub utf8: bool,
+    /// order of the builder calls (semantically neutral): bit0 = header operations before
+    /// `boxed()`, bit1 = boxed twice, bits2-3 = where the chunking threshold is set (1 = before
+    /// boxing, 2 = right after boxing, else last), bit4 = constructed with another status which
+    /// `with_status_code` then replaces (bit5: after boxing)
+    #[serde(default)]
+    pub plan: u8,
 }
 
 pub fn body_bytes(seed: u8, len: usize) -> Vec<u8> {
@@ -675,17 +681,20 @@ pub fn c04_strategy(max_len: usize) -> BoxedStrategy<RespCase> {
             (
                 (Just(len), status_strategy(), app_headers(len, 8, 3), any::<u8>(), proptest::bool::weighted(0.7)),
                 (threshold_strategy(len), prop_oneof![3 => Just((1u8, 1u8)), 1 => Just((1u8, 0u8))], proptest::bool::weighted(0.15), te_strategy(), pieces_strategy()),
-                prop_oneof![5 => Just(Ctor::New), 1 => Just(Ctor::FromData), 1 => Just(Ctor::FromString), 1 => Just(Ctor::Empty)],
+                (prop_oneof![5 => Just(Ctor::New), 1 => Just(Ctor::FromData), 1 => Just(Ctor::FromString), 1 => Just(Ctor::Empty)], proptest::bool::weighted(0.15), prop_oneof![1 => Just(0u8), 2 => any::<u8>()]),
             )
         })
-        .prop_map(|((len, status, headers, body_seed, declared), (threshold, version, head, te, pieces), ctor)| RespCase {
-            body_len: if matches!(ctor, Ctor::Empty) { 0 } else { len },
-            headers: if matches!(ctor, Ctor::Empty) { headers.into_iter().filter(|h| !h.name.eq_ignore_ascii_case("content-length")).collect() } else { headers },
+        .prop_map(|((len, status, headers, body_seed, declared), (threshold, version, head, te, pieces), (ctor, with_data, plan))| RespCase {
+            body_len: if matches!(ctor, Ctor::Empty) && !with_data { 0 } else { len },
+            // (a supplied Content-Length would be a wrong declaration for an empty body, and
+            // with_data replaces whatever length was declared before it)
+            headers: if matches!(ctor, Ctor::Empty) && !with_data { headers.into_iter().filter(|h| !h.name.eq_ignore_ascii_case("content-length")).collect() } else { headers },
             ctor,
             status,
             body_seed,
             declared,
-            with_data: false,
+            with_data,
+            plan,
             threshold,
             version,
             head,
@@ -702,7 +711,7 @@ pub fn c05_strategy() -> BoxedStrategy<RespCase> {
     let len = prop_oneof![3 => proptest::sample::select(LEN_BOUNDARY), 2 => 0usize..100, 1 => 0usize..40000];
     len.prop_flat_map(|len| {
         (
-            (Just(len), proptest::sample::select(vec![100u16, 101, 199, 200, 204, 304, 404, 500]), any::<u8>(), proptest::bool::weighted(0.6)),
+            (Just(len), proptest::sample::select(vec![100u16, 101, 199, 200, 204, 304, 404, 500]), any::<u8>(), proptest::bool::weighted(0.6), prop_oneof![1 => Just(0u8), 2 => any::<u8>()]),
             (
                 threshold_strategy(len),
                 prop_oneof![6 => Just((1u8, 1u8)), 2 => Just((1u8, 0u8)), 1 => Just((0u8, 9u8))],
@@ -713,7 +722,8 @@ pub fn c05_strategy() -> BoxedStrategy<RespCase> {
             proptest::option::weighted(0.05, Just("websocket".to_string())),
         )
     })
-    .prop_map(|((len, status, body_seed, declared), (threshold, version, head, te), headers, upgrade)| RespCase {
+    .prop_map(|((len, status, body_seed, declared, plan), (threshold, version, head, te), headers, upgrade)| RespCase {
+        plan,
         ctor: Ctor::New,
         status,
         headers,
@@ -757,6 +767,8 @@ pub fn c05_product() -> Vec<RespCase> {
                             for upgrade in [None, Some("websocket".to_string())] {
                                 let body_len = len.unwrap_or(5);
                                 out.push(RespCase {
+                                    // the builder orders rotate through the product
+                                    plan: (out.len() % 61) as u8,
                                     ctor: Ctor::New,
                                     status,
                                     headers: vec![],
@@ -796,10 +808,10 @@ pub fn c19_strategy() -> BoxedStrategy<RespCase> {
                 1 => Just(Ctor::NewEmpty),
                 1 => Just(Ctor::FromFile),
             ],
-            (prop_oneof![3 => Just((1u8, 1u8)), 1 => Just((1u8, 0u8))], proptest::bool::weighted(0.1), proptest::option::weighted(0.05, Just("websocket".to_string()))),
+            (prop_oneof![3 => Just((1u8, 1u8)), 1 => Just((1u8, 0u8))], proptest::bool::weighted(0.1), proptest::option::weighted(0.05, Just("websocket".to_string())), prop_oneof![1 => Just(0u8), 2 => any::<u8>()]),
         )
     })
-    .prop_map(|((len, status, headers, body_seed, declared, with_data), ctor, (version, head, upgrade))| {
+    .prop_map(|((len, status, headers, body_seed, declared, with_data), ctor, (version, head, upgrade, plan))| {
         let empty = matches!(ctor, Ctor::Empty | Ctor::NewEmpty);
         let body_len = if empty && !with_data { 0 } else { len };
         // keep "declared correctly": a supplied Content-Length carries the final body length
@@ -816,6 +828,7 @@ pub fn c19_strategy() -> BoxedStrategy<RespCase> {
             })
             .collect();
         RespCase {
+            plan,
             ctor,
             status,
             headers,
